@@ -200,6 +200,28 @@ func (s *scheduler) yield(what string) {
 	s.block(func() bool { return true }, what)
 }
 
+// preemptPoint is an explicit scheduling decision: any enabled task
+// (including the caller) may run next.
+func (s *scheduler) preemptPoint(what string) {
+	me := s.cur
+	var en []*task
+	for _, t := range s.tasks {
+		if t == me || t.enabled() {
+			en = append(en, t)
+		}
+	}
+	if len(en) < 2 || s.i.cfg.Sched == "first" {
+		return
+	}
+	k := s.i.ps.choose(len(en), "preempt", what)
+	if en[k] == me {
+		return
+	}
+	me.cond, me.what = func() bool { return true }, what
+	s.switchTo(en[k])
+	me.cond, me.what = nil, ""
+}
+
 // quiesce runs the other tasks until none of them is enabled and
 // returns the number of live (blocked) tasks besides the caller.
 func (s *scheduler) quiesce() int {
